@@ -433,6 +433,17 @@ Definition col_of_section (m : meta) (s c : Z) : bool :=
 Definition add_field (s c : Z) (m : meta) : res meta :=
   if col_of_section m s c then Ok (add_fields s [c] m) else Unmodelled.
 
+(* AddVisibleColumn: AddColumn, then a field in every 'record' section of the table other than the raw one
+   (the section kinds are not modelled: the sections are named by the caller and checked to show the table) *)
+Fixpoint add_field_each (secs : list Z) (c : Z) (m : meta) : meta :=
+  match secs with [] => m | s :: r => add_field_each r c (add_fields s [c] m) end.
+
+Definition add_visible_column (t kind reft : Z) (secs : list Z) (m : meta) : res meta :=
+  let c := next_id (cids m) in
+  bind (add_column t kind reft m) (fun m1 =>
+    if forallb (fun s => col_of_section m1 s c) secs then Ok (add_field_each secs c m1) else Unmodelled).
+
+
 (* ---------------------------------------------------------------------------------------------- *)
 (* display columns and conditional rules *)
 
@@ -914,6 +925,7 @@ Inductive op :=
 | OReident (ckinds tnames : list (Z * Z))                (* RenameColumn, RenameTable *)
 | ODetach (sec name : Z) (kinds : list Z) (refts remap : list (Z * Z))   (* DetachSummaryViewSection *)
 | OAddTableR (name : Z) (kinds : list Z) (pview : bool) (refts : list (Z * Z))   (* AddTable with reference columns *)
+| OAddVisibleColumn (t kind reft : Z) (secs : list Z)    (* AddVisibleColumn *)
 | OCreateSectionShown (t v : Z) (shown : list Z)         (* CreateViewSection, chart or form *)
 | OCreateSummaryExisting (src v : Z) (gb : list Z) (target : Z) (added shown : list Z)  (* ..., existing summary *)
 | ONoMeta                                               (* an action that touches none of the modelled cells *)
@@ -948,6 +960,7 @@ Definition step (o : op) (m : meta) : res meta :=
   | OReident ckinds tnames => reident ckinds tnames m
   | ODetach sec name kinds refts remap => detach sec name kinds refts remap m
   | OAddTableR name kinds pview refts => bind (add_table name kinds pview m) (fun p => Ok (set_refts refts (fst p)))
+  | OAddVisibleColumn t kind reft secs => add_visible_column t kind reft secs m
   | OCreateSectionShown t v shown => create_section_shown t v shown m
   | OCreateSummaryExisting src v gb target added shown => create_summary_existing src v gb target added shown m
   | ONoMeta => Ok m
